@@ -1434,9 +1434,10 @@ class GroupBy:
 
         # TODO: allow a target vector
         results = parallel_map(func, arg_list)
+        # one result per non-empty group and value (empty groups are not handed to func)
+        n_called = len(arg_list) // len(value_list)
         results_per_value = [
-            results[i * self.ngroups : (i + 1) * self.ngroups]
-            for i in range(len(value_list))
+            results[i * n_called : (i + 1) * n_called] for i in range(len(value_list))
         ]
         result_col_names = self._col_names_from_value_names(value_names)
 
@@ -1451,7 +1452,20 @@ class GroupBy:
             arrays = map(np.array, results_per_value)
             if transform:
                 self._unify_group_key_chunks(keep_chunked=False)
-                arrays = [arr[self.group_ikey] for arr in arrays]
+                # the results are in sorted label order and cover the non-empty groups only:
+                # scatter them to one slot per group code (+ a null slot for null keys)
+                non_empty = np.array([len(arr) > 0 for arr in array_splits[0]])
+                order = (
+                    self._labels_argsort
+                    if isinstance(self._labels_argsort, np.ndarray)
+                    else np.arange(self.ngroups)
+                )
+                scattered = []
+                for arr in arrays:
+                    full = np.full(self.ngroups + 1, np.nan)
+                    full[order[non_empty]] = arr
+                    scattered.append(full)
+                arrays = [arr[self.group_ikey] for arr in scattered]
                 index = (
                     common_index
                     if common_index is not None
